@@ -147,6 +147,7 @@ type Frame struct {
 	rangeInfo map[*ssa.Range]*rangeInfo
 	id        int
 	noKeep    bool // the next heap havoc must not preserve monitor-protected state
+	parent    *Frame          // the frame this one is inlined into
 	ownBoxes  map[string]*Loc // boxed locals of this frame (by reference term) whose address has not escaped
 	pendingArgs []Val         // arguments of the call being dispatched (for escape marking)
 	predGuard map[*ssa.BasicBlock]Term // for phi: guard of the edge from each pred into the current block
